@@ -84,7 +84,9 @@ func (l *vhLN) answer(kind string) (lightning.PaymentStatus, error) {
 		v.Assume(false) // stated bound on the script length
 	}
 	a := vhAnswer{Kind: kind}
-	a.Status = lightning.State(v.Int("ln."+kind+".status", 0, 2))
+	st := v.U64("ln." + kind + ".status") // symbolic: the code under test forks on it only where it looks
+	v.Assume(st <= 2)
+	a.Status = lightning.State(st)
 	nerr := 1
 	if kind == "status" {
 		nerr = 2
